@@ -90,6 +90,13 @@ Theorem C12_wrap_sites_as_modelled : forall x, In x wrap_sites -> site_ok x = tr
 Proof. exact wrap_sites_modelled. Qed.
 Print Assumptions C12_wrap_sites_as_modelled.
 
+(* static: no constructor of a registered class writes to the element when it only wraps an existing node -- no property
+   assignment through a setter and no public mutator call outside `if self._do_init:` anywhere in its __init__ chain
+   (bound: the generated list wrap_writes; dynamic counterpart: parse-neutrality cases of the correspondence) *)
+Theorem C12_wrapping_never_writes_static : wrap_writes = [].
+Proof. exact sweep_wrap_writes. Qed.
+Print Assumptions C12_wrapping_never_writes_static.
+
 Example C12_example_access :
   let doc := XNode "{urn:oasis:names:tc:opendocument:xmlns:table:1.0}table"
                [XNode "{urn:oasis:names:tc:opendocument:xmlns:table:1.0}table-column" [];
